@@ -10,7 +10,7 @@ cd "$WT"
 PYTHONPATH="$WT" timeout 300 /venv/bin/python "$D/demo.py" > /tmp/seed_demo_clean_$$.txt 2>&1; DC=$?
 if ! git apply "$D/patch.diff" 2>/tmp/seed_apply_$$.txt; then echo "{\"dir\":\"$D\",\"applies\":false}"; git -C /repo worktree remove --force "$WT"; exit 0; fi
 PYTHONPATH="$WT" timeout 300 /venv/bin/python "$D/demo.py" > /tmp/seed_demo_mut_$$.txt 2>&1; DM=$?
-PYTHONPATH="$WT" timeout 1500 /venv/bin/python -m pytest -q -p no:cacheprovider --timeout=900 -x tests > /tmp/seed_tests_$$.txt 2>&1; TS=$?
+OMP_NUM_THREADS=4 PYTHONPATH="$WT" timeout 1500 /venv/bin/python -m pytest -q -p no:cacheprovider --timeout=900 -x tests > /tmp/seed_tests_$$.txt 2>&1; TS=$?
 TL=$(tail -1 /tmp/seed_tests_$$.txt | tr -d '"')
 RES=""
 for P in $PROPS; do
